@@ -55,6 +55,37 @@ def lookup_attribute_facts(ctx, rid):
             node=fi.node, function=ctx.fq(fi), mod=fi.module,
             expected="[k, v] for k, v in cls._metadata.map.items() if getattr(k, attribute) == key",
             found="comparison of getattr(k, attribute) with key not found")
+    # the selection is total over the table: no additional filter hides an entry (or every key class passes it)
+    comps = [s for o in rets for s in subterms(o.value) if isinstance(s, App) and s.op == "comp:list" and len(s.args) == 3
+             and contains(s.args[1], lambda u: isinstance(u, App) and u.op == "attr:map")]
+    if not comps:
+        raise AnalysisError("SuitKeyValue._get_method_and_name: selection over the map not recognised")
+    def conjuncts(c):
+        if isinstance(c, App) and c.op == "and":
+            out = []
+            for x in c.args:
+                out += conjuncts(x)
+            return out
+        return [c]
+    for cmp_ in comps[:1]:
+        for c in [x for c0 in cmp_.args[2].args for x in conjuncts(c0)]:
+            is_eq = isinstance(c, App) and c.op == "==" and any(isinstance(x, App) and x.op == "call:getattr" for x in c.args)
+            if is_eq:
+                continue
+            if isinstance(c, App) and c.op in ("call:issubclass", "issubclass") and len(c.args) == 2 and isinstance(c.args[1], Ref) and c.args[1].kind == "class":
+                base = c.args[1].obj
+                S = ctx.schema
+                missing = set()
+                for mi in S.meta.values():
+                    for k, v in mi.map or []:
+                        kc = getattr(k, "cls", None)
+                        if kc is not None and hasattr(k, "name") and base not in repo.mro(kc):
+                            missing.add(kc.name)
+                R.check(rid, not missing, f"every key class of every table passes the additional filter issubclass(k, {base.name})",
+                        node=fi.node, function=ctx.fq(fi), mod=fi.module, expected="no entry of a table is hidden from the lookup",
+                        found=f"{sorted(missing)} not derived from {base.name}: their names and codes are no longer found", key_extra="filter")
+                continue
+            raise AnalysisError(f"SuitKeyValue._get_method_and_name: additional selection condition not understood: {c!r}"[:200])
     default = None
     a = fi.node.args
     names = [x.arg for x in a.args]
